@@ -36,7 +36,7 @@ theorem C01_tie_manage_loads_first :
 /-- the save is the transactional store of the three keys -/
 theorem C01_tie_save_is_storeTx :
     (acts CM.Gen.C01.sk_Config_saveCertResource).contains "storeTx" = true ∧
-    before "s.Store" "s.Delete" (acts CM.Gen.C01.sk_storeTx) = true := by decide
+    before (CM.Gen.C01.storeTxParam ++ ".Store") (CM.Gen.C01.storeTxParam ++ ".Delete") (acts CM.Gen.C01.sk_storeTx) = true := by decide
 
 theorem C01_tie_lock_name : CM.Gen.C01.certIssueLockOp = "issue_cert" := by decide
 
